@@ -21,7 +21,10 @@ RULE = ("programs built from GC hazard snippets: temporaries in argument lists w
         "argument executes statements, objects under construction whose constructor arguments "
         "execute statements, chained calls on fresh objects, objects reachable only from fields / "
         "statics / return values / arrays, cyclic garbage with and without destructors, allocation "
-        "bursts (> 16 objects), explicit destroy, runtime errors in the middle of construction. "
+        "bursts (> 16 objects), explicit destroy, runtime errors in the middle of construction, objects that own "
+        "qubits or @tracked qubits directly or through a base class (garbage and live cycles of them, plain objects "
+        "reachable only through them; <= 11 qubits). The compared outcome is echo output, exit status, warnings, the "
+        "OpenQASM listing and the traced simulator operations. "
         "Schedules per program: none, all, every single boundary (cap 160 quick / 600 thorough), "
         "random subsets p in {0.02,0.2,0.5}, each with and without natural triggers; real timer "
         "50-500 us under TSan. Distinct = distinct (program, schedule) pairs; non-trivial = at "
@@ -111,6 +114,52 @@ class Wrap<T> {
         return this.item;
     }
 }
+class QBase {
+    public qubit q;
+    public QBase peer;
+    public Node kid;
+    public constructor() -> QBase = default;
+}
+class QSub extends QBase {
+    public int tag = 1;
+    public constructor() -> QSub {
+        super();
+        return this;
+    }
+}
+class TOwn {
+    @tracked public qubit t;
+    public TOwn peer;
+    public Node kid;
+    public constructor() -> TOwn = default;
+}
+class TSub extends TOwn {
+    public constructor() -> TSub {
+        super();
+        return this;
+    }
+}
+function qgarbage(int k) -> int {
+    for (int i = 0; i < k; i = i + 1) {
+        QSub a = new QSub();
+        QSub b = new QSub();
+        a.peer = b;
+        b.peer = a;
+        x(a.q);
+    }
+    return k;
+}
+function tgarbage(int k) -> int {
+    for (int i = 0; i < k; i = i + 1) {
+        TSub a = new TSub();
+        TOwn b = new TOwn();
+        a.peer = b;
+        b.peer = a;
+        x(a.t);
+        measure a.t;
+    }
+    return k;
+}
 function mk(int v) -> Node {
     Node fresh = new Node(v);
     return fresh;
@@ -168,6 +217,18 @@ SNIPPETS = [
     ("reassign", ["Node {v} = new Node({a});", "{v} = new Node(garbage({b}));", "echo({v}.v);"]),
     ("error-mid-construct", ["Pair {v} = new Pair(new Node({a}), mk(spin(2) / 0));", "echo(1);"]),
     ("nested-pending", ["echo(use(new Node({a}), use(new Node({b}), garbage(2))));"]),
+    # objects that own qubits (directly or through a base class): the collector must neither release
+    # their qubits early nor lose what is reachable only through them
+    ("q-cycle-garbage", ["int {w} = qgarbage({b});", "echo({w});", "qubit {v};", "x({v});", "bit {v}m = measure {v};", "echo({v}m);"]),
+    ("t-cycle-garbage", ["int {w} = tgarbage({b});", "echo({w} + garbage(2));"]),
+    ("q-kid-only", ["QBase {v} = new QBase();", "{v}.kid = new Node({a});", "int {w} = garbage({b});", "echo({v}.kid.v + {w});"]),
+    ("qsub-kid-only", ["QSub {v} = new QSub();", "{v}.kid = mk({a});", "int {w} = burst(17);", "echo({v}.kid.sum() + {w});"]),
+    ("t-kid-only", ["TOwn {v} = new TOwn();", "{v}.kid = new Node({a});", "x({v}.t);", "int {w} = garbage({b});",
+                    "bit {v}m = measure {v}.t;", "echo({v}.kid.v + {w});", "echo({v}m);"]),
+    ("q-live-cycle", ["QSub {v} = new QSub();", "QSub {v}b = new QSub();", "{v}.peer = {v}b;", "{v}b.peer = {v};",
+                      "{v}b.kid = new Node({a});", "int {w} = garbage({b});", "x({v}b.q);", "echo({v}.peer.kid.v + {w});"]),
+    ("q-cycle-then-scope-exit", ["{", "    QSub {v} = new QSub();", "    QSub {v}b = new QSub();", "    {v}.peer = {v}b;",
+                                 "    {v}b.peer = {v};", "    x({v}.q);", "}", "echo(garbage({b}));", "qubit {v}n;", "bit {v}m = measure {v}n;", "echo({v}m);"]),
     ("binary-operands", ["echo(new Node({a}).val() + garbage({b}) + new Node({b}).val());"]),
 ]
 
@@ -177,12 +238,19 @@ def gen_program(rng, scale=1, allow_error=True):
     body = []
     tags = []
     uid = 0
+    qubits = 0
     for _ in range(n):
         tag, lines = rng.choice(SNIPPETS)
         if tag == "error-mid-construct" and (not allow_error or rng.random() < 0.8):
             continue
         uid += 1
         m = dict(a=rng.randint(1, 9), b=rng.randint(1, 4), v="o%d" % uid, w="w%d" % uid)
+        # objects that own qubits are never swept, so their qubits stay allocated: bound the register
+        cost = {"q-cycle-garbage": 2 * m["b"] + 1, "t-cycle-garbage": 2 * m["b"], "q-kid-only": 1, "qsub-kid-only": 1,
+                "t-kid-only": 1, "q-live-cycle": 2, "q-cycle-then-scope-exit": 3}.get(tag, 0)
+        if qubits + cost > 11:
+            continue
+        qubits += cost
         for l in lines:
             body.append("    " + re.sub(r"\{(\w+)\}", lambda mo: str(m[mo.group(1)]), l))
         tags.append(tag)
@@ -192,10 +260,14 @@ def gen_program(rng, scale=1, allow_error=True):
     return PRELUDE + "function main() -> void {\n" + "\n".join(body) + "\n}\n", tags
 
 
-def outcome(r):
+def outcome(r, qasm=None, events=()):
     c = r.classify()
     if c[0] == "ok":
-        return ("ok", r.stdout)
+        # everything a user can observe: echo output, warnings, the OpenQASM listing, and (through the
+        # trace) the operations performed on the simulator
+        warns = tuple(re.sub(r"\x1b\[[0-9;]*m", "", l) for l in r.stderr.split("\n") if "[WARNING]" in l)
+        ops = tuple((e["op"], e["q0"], e["q1"], e["out"]) for e in events if e["k"] == "sim")
+        return ("ok", r.stdout, warns, qasm, ops)
     if c[0] == "diag":
         return ("diag", c[1], c[2], c[4][:60])
     return tuple(c[:2])
@@ -209,7 +281,9 @@ def run_schedule(binary, src, spec, timeout=60, extra_env=None):
     env = {"BLOCH_VERIF_GC": spec}
     if extra_env:
         env.update(extra_env)
-    r, events, _, _ = core.run_bloch(binary, src, env=env, trace=True, timeout=timeout)
+    env.setdefault("BLOCH_VERIF_SEED", "7")
+    r, events, qasm, _ = core.run_bloch(binary, src, env=env, trace=True, timeout=timeout)
+    r.qasm = qasm
     return r, events
 
 
@@ -230,7 +304,7 @@ def deterministic_part(ctx, binary):
 
     for i, r, ev in core.pmap(ref_one, progs):
         b = [e for e in ev if e["k"] == "exec_end"]
-        refs[i] = (outcome(r), b[0]["boundaries"] if b else None, r)
+        refs[i] = (outcome(r, r.qasm, ev), b[0]["boundaries"] if b else None, r)
     jobs = []
     for i, src, tags in progs:
         out, B, r = refs[i]
@@ -263,7 +337,7 @@ def deterministic_part(ctx, binary):
 
     for (i, src, tags, spec), r, ev in core.pmap(one, jobs):
         ref_out = refs[i][0]
-        out = outcome(r)
+        out = outcome(r, r.qasm, ev)
         gcs = gc_events(ev)
         ran = [g for g in gcs if g["objects"] > 0 and g["trigger"] != "final"]
         ctx.note_case((i, spec), nontrivial=bool(ran), sample=dict(program=i, schedule=spec, snippets=tags))
@@ -304,7 +378,7 @@ def timer_part(ctx):
     for i in range(nprog):
         src, tags = gen_program(ctx.rng("timer%d" % i), scale=6, allow_error=(i % 4 == 0))
         r, ev = run_schedule(plain_ref, src, "none")
-        refs[i] = outcome(r)
+        refs[i] = outcome(r, r.qasm, ev)
         for k in range(reps):
             jobs.append((i, src, tags, periods[(i + k) % len(periods)], k))
     distinct_boundaries = set()
@@ -334,7 +408,7 @@ def timer_part(ctx):
             reports[s["key"]] += 1
             ctx.violation("gc:" + s["key"], "ThreadSanitizer report with the real timer (period %d us): %s" %
                           (period, s["text"][:400]), case, files)
-        out = outcome(r)
+        out = outcome(r, r.qasm, ev)
         if not tsan and out != refs[i]:
             if out[0] == "timeout":
                 ctx.inconclusive_because("timer run timed out")
@@ -411,10 +485,10 @@ def replay(ctx, data):
         return
     binary = build.build("bloch", "asan")
     src, tags = gen_program(ctx.rng(case["index"]))
-    r0, _ = run_schedule(binary, src, "none")
+    r0, ev0 = run_schedule(binary, src, "none")
     r, ev = run_schedule(binary, src, case["schedule"])
     print(src[len(PRELUDE):])
-    print("reference:", outcome(r0))
-    print("schedule :", outcome(r), [g for g in gc_events(ev) if g["held"]])
-    if outcome(r) != outcome(r0) or any(g["held"] for g in gc_events(ev)):
+    print("reference:", outcome(r0, r0.qasm, ev0))
+    print("schedule :", outcome(r, r.qasm, ev), [g for g in gc_events(ev) if g["held"]])
+    if outcome(r, r.qasm, ev) != outcome(r0, r0.qasm, ev0) or any(g["held"] for g in gc_events(ev)):
         ctx.violation(data["key"], "replayed", case)
